@@ -63,7 +63,7 @@ def case(draw, tier):
         zero_at = sorted(t for t, _ in sz if draw(st.booleans()))
         libop = {"sz": [[t, [{"k": "set", "v": 0 if t in zero_at else abs(ops[-1]["v"]) + 1}]] for t, ops in sz], "zero_at": zero_at,
                  "passive": draw(st.integers(0, 2)) == 0, "name": draw(st.sampled_from(["floordiv_", "floordiv_", "mod_"]))}
-    return {"libop": libop, "pre": pre, "sibling_timer": sibling_timer, "end": horizon, "shape": shape, "s0": s0, "s1": s1, "throw_times": throw_times, "self_sched": self_sched,
+    return {"multiline": draw(st.integers(0, 2)) == 0, "libop": libop, "pre": pre, "sibling_timer": sibling_timer, "end": horizon, "shape": shape, "s0": s0, "s1": s1, "throw_times": throw_times, "self_sched": self_sched,
             "throw_ords": throw_ords, "period": period,
             "second": second, "fn": draw(st.sampled_from(["sum", "acc", "count"])), "keys": keys}
 
@@ -74,7 +74,7 @@ def strategy(tier):
 
 def build(case, faults: bool):
     end = case["end"]
-    thr = {"time": case["throw_times"], "ord": case.get("throw_ords", [])} if faults else None
+    thr = {"time": case["throw_times"], "ord": case.get("throw_ords", []), "multiline": bool(case.get("multiline"))} if faults else None
     stmts = [{"id": "s0", "op": "src", "schema": "TS[int]", "script": case["s0"]},
              {"id": "s1", "op": "src", "schema": "TS[int]", "script": case["s1"]},
              # independent branch
@@ -152,6 +152,11 @@ def build(case, faults: bool):
     return prog
 
 
+def thrown_text(label, ordn, case):
+    """the text the harness node throws in evaluation #ordn (harness/hv_nodes.cpp)"""
+    return f"boom:{label}:eval:{ordn}" + (f"\n  second line of {label}\r\n  third line" if case.get("multiline") else "")
+
+
 def errs_of(tr, label):
     out = []
     for d in tr.evals_of(label, "r"):
@@ -223,9 +228,10 @@ def check(case, ctx) -> Result:
         if [t for t, _ in errs] != throw_eval_times:
             res.violations.append(Viol("error_ticks_wrong", f"user code threw at {throw_eval_times[:12]} but the error output ticked at {[t for t, _ in errs][:12]}", feats))
         else:
+            ords = {d["t"]: d["ord"] for d in tr.user_evals if d["x"].get("throw") and d["label"] == "T"}
             for (t, msg) in errs:
-                if not (isinstance(msg, str) and msg.startswith("boom:T:eval:")):
-                    res.violations.append(Viol("error_message_wrong", f"t={t}: error_msg is {str(msg)[:200]!r}, the exception text was 'boom:T:eval:<n>'", feats))
+                if msg != thrown_text("T", ords.get(t), case):
+                    res.violations.append(Viol("error_message_wrong", f"t={t}: error_msg is {str(msg)[:200]!r}, the exception text was {thrown_text('T', ords.get(t), case)!r}", dict(feats, multiline=bool(case.get("multiline")))))
                     break
         if case["second"]:
             thr2 = [d["t"] for d in tr.user_evals if d["x"].get("throw") and d["label"] == "T2"]
@@ -261,8 +267,11 @@ def check(case, ctx) -> Result:
                 outs0.append((d["t"], ch[1].get("val")))
         if [t for t, _ in errs] != throw_eval_times:
             res.violations.append(Viol("error_ticks_wrong", f"the wrapped graph threw at {throw_eval_times[:12]} but the exception output ticked at {[t for t, _ in errs][:12]}", feats))
-        elif any(not str(m).startswith("boom:G.T:eval:") for _, m in errs):
-            res.violations.append(Viol("error_message_wrong", f"exception output carries {[m for _, m in errs][:3]}", feats))
+        else:
+            ords = {d["t"]: d["ord"] for d in tr.user_evals if d["x"].get("throw") and d["label"] == "G.T"}
+            bad = [(t, m) for t, m in errs if m != thrown_text("G.T", ords.get(t), case)]
+            if bad:
+                res.violations.append(Viol("error_message_wrong", f"exception output carries {[str(m)[:120] for _, m in bad][:3]}, thrown was {thrown_text('G.T', ords.get(bad[0][0]), case)!r}", dict(feats, multiline=bool(case.get("multiline")))))
         exp_out = [(t, v) for t, v in outs0 if t not in throw_eval_times]
         got_out = [(t, v) for t, v in outs if t not in throw_eval_times]
         if exp_out != got_out:
@@ -326,6 +335,8 @@ def check(case, ctx) -> Result:
         res.labels.append("self_scheduling_thrower")
     if case["second"]:
         res.labels.append("two_failing_nodes")
+    if case.get("multiline") and throw_eval_times:
+        res.labels.append("multi_line_message")
     if case.get("sibling_timer"):
         res.labels.append("timer_ranked_after_thrower")
     if case.get("pre") and case["shape"] != "node":
